@@ -67,6 +67,17 @@ CHECKS = {
    design="4 C08",
    note=COMMON_NOTE + "Registry.lean (the spec side) is written from memory of the drafts/RFCs offline; vendor-specific entries are pinned to the pinned commit.",
    technique="Lean 4 proof (decide +kernel over generated tables, list lemmas) + exhaustive model/implementation/registry correspondence"),
+ "C01": dict(
+   text="Lean theorem C01_create_digests: for every schema, file system, hash function and description, the tree the model of create serialises holds in its "
+        "authentication wrapper the declared hash of the to_cbor() bytes of the bstr-wrapped manifest of that same tree, and every digest reference to a present "
+        "severed member equals the declared hash of that member's to_cbor() bytes (invariant over the loop of update_severable_digests, then update_digest; no bound "
+        "on sizes or nesting); C01_supplied_ignored; C01_wrapped_header (the 23/24, 255/256, 65535/65536 header-width boundaries are ordinary cases); C01_span "
+        "(strict decoding gives back exactly the bytes); C01_hash_table (decide: SHAKE128->16, SHAKE256->32 over the re-extracted table). The byte-level predicate "
+        "Spec.checkRec (own strict CBOR reader, own digest table) is evaluated on every envelope the real tool creates; the step from the node-level theorem to that "
+        "predicate is not yet a theorem (partial).",
+   design="4 C01",
+   note=COMMON_NOTE + "Partial: node-level theorem + byte-level predicate evaluated on implementation output; cbor2 dumps/loads modelled as enc/dec on the plain subset.",
+   technique="Lean 4 proof (loop invariant over digest updates, for all hash functions) + byte-exact model/implementation correspondence + executable byte-level spec"),
 }
 
 NA_REASON = "check not yet built in this revision (work in progress; DESIGN.md section 4 describes the planned model and theorems)"
